@@ -30,6 +30,8 @@ UPTIME = (1, 3, 6, 1, 2, 1, 1, 3, 0)
 TRAPOID = (1, 3, 6, 1, 6, 3, 1, 1, 4, 1, 0)
 ADDR1 = ("192.0.2.7", 40001)
 ADDR2 = ("198.51.100.9", 162)
+# asyncio reports IPv6 peers as 4-tuples (host, port, flowinfo, scope id)
+ADDR6 = ("2001:db8::7", 40006, 0, 0)
 
 PAYLOADS = {
     0: [],
@@ -61,6 +63,8 @@ def alphabet():
     A["valid3"] = (d3, ADDR2, vbs3, True)
     dk, vbsk = trap_bytes(b"public", PAYLOADS["kinds"], 103, uptime=2**32 - 1)
     A["validkinds"] = (dk, ADDR1, vbsk, True)
+    d6, vbs6 = trap_bytes(b"public", PAYLOADS[3][:1], 107)
+    A["valid-ipv6"] = (d6, ADDR6, vbs6, True)
     d, _ = trap_bytes(b"private", PAYLOADS[3], 104)
     A["foreign"] = (d, ADDR1, None, True)
     A["truncated"] = (d3[: len(d3) // 2], ADDR2, None, True)
@@ -145,7 +149,7 @@ def judge(letters, A, deliveries, setup_exc, escaped, logged, closed):
     for name in letters:
         data, addr, vbs, judged = A[name]
         if vbs is not None:
-            expected.append(("trap", tuple(vbs), tuple(addr), addr[0]))
+            expected.append(("trap", tuple(vbs), tuple(addr[:2]), addr[0]))
     got_traps = [d for d in deliveries if d[0] == "trap"]
     # deliveries of non-judged letters (inform, v1 version) are ignored
     unjudged = sum(1 for n in letters if not A[n][3])
